@@ -183,7 +183,7 @@ func runC18(c *Ctx) {
 		dom := false
 		for _, en := range enables {
 			e := errOf(en, 2)
-			if e != nil && domI(en, r) && knownNil(r.Block(), e, true) && en.Call.Args[0] == dV {
+			if e != nil && domI(en, r) && knownNilVia(r.Block(), e, true) && en.Call.Args[0] == dV {
 				dom = true
 			}
 		}
@@ -217,7 +217,7 @@ func runC18(c *Ctx) {
 		okE := false
 		for _, r := range returnsOf(main) {
 			rv := retVals(r)
-			if e != nil && knownNil(r.Block(), e, false) && isNilConst(rv[0]) && errDerives(rv[1], func(v ssa.Value) bool { return v == e }) {
+			if e != nil && knownNilVia(r.Block(), e, false) && isNilConst(rv[0]) && errDerivesNonNil(rv[1], r.Block(), func(v ssa.Value) bool { return v == e }) {
 				okE = true
 			}
 		}
